@@ -13,6 +13,7 @@ import (
 	"github.com/nyaruka/goflow/flows"
 	"github.com/nyaruka/goflow/flows/events"
 	"github.com/nyaruka/goflow/flows/inputs"
+	"github.com/nyaruka/goflow/flows/modifiers"
 	"github.com/nyaruka/goflow/flows/resumes"
 	"github.com/nyaruka/goflow/flows/runs"
 	"github.com/nyaruka/goflow/flows/triggers"
@@ -561,12 +562,8 @@ func (s *session) ensureQueryBasedGroups(logEvent flows.EventCallback) {
 		return
 	}
 
-	added, removed := s.contact.ReevaluateQueryBasedGroups(s.Environment())
-
-	// add groups changed event for the groups we were added/removed to/from
-	if len(added) > 0 || len(removed) > 0 {
-		logEvent(events.NewContactGroupsChanged(added, removed))
-	}
+	// same re-evaluation as after a modifier, which also takes a non-active contact out of its static groups
+	modifiers.ReevaluateGroups(s.Environment(), s.contact, logEvent)
 }
 
 // a run in a voice flow can only be continued if the session was triggered with a call - this is checked when a session
